@@ -315,6 +315,10 @@ def op_strategy():
         st.tuples(st.just('q'), st.sampled_from(['opt', 'star', 'plus', 'exactly', 'atleast', 'atmost', 'range']),
                   st.sampled_from(['class', 'method']), idx, st.integers(0, 3), st.one_of(st.none(), st.integers(3, 4)), st.booleans()).map(list),
         st.tuples(st.just('q'), st.just('exactly'), st.sampled_from(['mul', 'rmul']), idx, st.integers(0, 3), st.none(), st.just(True)).map(list),
+        # bounds that are invalid but compare/hash equal to valid ones (True == 1, 2.0 == 2): the outcome must not depend on
+        # whether the same object was quantified with the valid value before
+        st.tuples(st.just('q'), st.sampled_from(['exactly', 'atleast', 'atmost', 'range']), st.sampled_from(['class', 'method']), idx,
+                  st.sampled_from([True, False, 1.0, 2.0, 0, 1, 2]), st.sampled_from([None, True, 2.0, 1, 2, 3.0]), st.booleans()).map(list),
         st.tuples(st.just('grp'), sp2, idx, st.booleans()).map(list),
         st.tuples(st.just('cap'), sp2, idx, st.one_of(st.none(), st.sampled_from(['n', 'g2']))).map(list),
         st.tuples(st.just('anchor'), st.sampled_from(['start', 'end', 'lstart', 'lend']), sp2, idx).map(list),
@@ -331,7 +335,8 @@ def op_strategy():
 def strategy():
     return st.fixed_dictionaries({
         'leaves': st.lists(leaf_strategy(), min_size=2, max_size=4),
-        'ops': st.lists(op_strategy(), min_size=3, max_size=14),
+        'ops': st.one_of(st.lists(op_strategy(), min_size=3, max_size=14), st.lists(op_strategy(), min_size=3, max_size=14),
+                         st.lists(op_strategy(), min_size=15, max_size=40)),
         'texts': st.lists(st.text(st.sampled_from(list('ab1 \n-.xAZ_9é(')), max_size=8), min_size=3, max_size=6).map(lambda xs: xs + ['', 'a']),
     })
 
